@@ -111,8 +111,11 @@ def run(p, report, tier):
                 guard = owner
                 break
         gtxt = ast.unparse(guard.test) if guard is not None else ""
+        inst = [c for c in ast.walk(guard.test) if isinstance(c, ast.Call) and c01.callname(c) == "isinstance"
+                and len(c.args) == 2 and isinstance(c.args[0], ast.Name) and c.args[0].id == "missing_label"
+                and "float" in ast.unparse(c.args[1])] if guard is not None else []
         gok = guard is not None and "isnan(missing_label)" in gtxt.replace("np.", "").replace("numpy.", "") \
-            and "isinstance(missing_label, float)" in gtxt
+            and bool(inst)
         # equality path is the complement of that test
         eq_else = guard is not None and (any(x is re_ for st in guard.orelse for x in ast.walk(st)) or
                                          (not guard.orelse and re_.lineno > guard.lineno))
